@@ -97,6 +97,26 @@ Theorem gamess_us_no_number_lost : gus_no_number_lost_stmt.
 Proof. exact GamessUsSpec.gus_no_number_lost. Qed.
 Print Assumptions gamess_us_no_number_lost.
 
+From BSE Require Import Model.Dalton Proofs.DaltonDefs Model.DaltonEcp Proofs.DaltonEcpDefs Model.Libmol Proofs.LibmolDefs.
+From BSE Require Proofs.DaltonSpec Proofs.DaltonEcpSpec Proofs.LibmolSpec.
+(* Dalton (whole file) and libmol (electron part; zero coefficients outside the printed range are legitimately left out) *)
+Theorem dalton_no_number_lost : dal_no_number_lost_stmt.
+Proof. exact DaltonSpec.dal_no_number_lost. Qed.
+Print Assumptions dalton_no_number_lost.
+
+Theorem dalton_ecp_no_number_lost : dal_ecp_no_number_lost_stmt.
+Proof. exact DaltonEcpSpec.dal_ecp_no_number_lost. Qed.
+Print Assumptions dalton_ecp_no_number_lost.
+
+(* an electron count >= 1000 is glued to the number in front of it ('{:4d}{:4d}'): not a token of the text *)
+Theorem dalton_ecp_glued_count_refuted : dal_ecp_glued_counterexample_stmt.
+Proof. exact DaltonEcpSpec.dal_ecp_glued_counterexample. Qed.
+Print Assumptions dalton_ecp_glued_count_refuted.
+
+Theorem libmol_no_number_lost : lmol_no_number_lost_stmt.
+Proof. exact LibmolSpec.lmol_no_number_lost. Qed.
+Print Assumptions libmol_no_number_lost.
+
 (* the Gaussian94 ECP blocks: every gaussian exponent / coefficient (with the D marker the writer prints), every r exponent
    and the electron count is a token of the text *)
 From BSE Require Import Model.G94Ecp Proofs.G94EcpDefs.
